@@ -201,7 +201,13 @@ func c19Exec(p *harness.Plan) *harness.Outcome {
 		var ts uint64
 		var tx *common.VersionedTransaction
 		name := ""
-		switch op.A {
+		kind := op.A
+		if now := inj.now; now%c19Day < gap && start/c19Day != now/c19Day && vr.Chance(0.7) {
+			kind = 10 // a new day has just begun: open a round right after midnight
+		} else if start%c19Day < gap && vr.Chance(0.5) {
+			kind = 12 // the head round started right after midnight: try the last instants of the day before
+		}
+		switch kind {
 		case 0:
 			name, ts = "start+gap-1", start+gap-1
 		case 1:
@@ -237,6 +243,8 @@ func c19Exec(p *harness.Plan) *harness.Outcome {
 				kinds["new-round"]++
 			}
 			return
+		case 12:
+			name, ts = "previous-day-within-gap", (start/c19Day)*c19Day-1-uint64(vr.IntN(int(gap/4)))
 		default:
 			name, ts = "inside-far", start+uint64(vr.Int64N(int64(gap)))
 		}
